@@ -1376,7 +1376,11 @@ func (v *FnVC) invEnv(l *Loop, st *State, ls *loopState) *Env {
 func (v *FnVC) bindGhost(env *Env, st *State) {
 	for name, typ := range v.ghostVars {
 		if t, ok := st.vars["ghost."+name]; ok {
-			env.vars[name] = Val{T: t, Typ: typ}
+			if v.ghostSeq[name] {
+				env.vars[name] = Val{T: MkSlice(IntLit(0), IntLit(0), IntLit(0), IntLit(0)), Typ: typ, Arr: t}
+			} else {
+				env.vars[name] = Val{T: t, Typ: typ}
+			}
 		}
 	}
 }
@@ -1535,7 +1539,11 @@ func (v *FnVC) loopHead(l *Loop, pre *State, reach *Term) *State {
 		}
 		key := "ghost." + name
 		if _, ok := pre.vars[key]; ok && v.ghostAssignedIn(l, name) {
-			h.vars[key] = v.fresh(key+"@"+ln, sortOf(typ))
+			if v.ghostSeq[name] {
+				h.vars[key] = v.fresh(key+"@"+ln, ArrSort(SInt))
+			} else {
+				h.vars[key] = v.fresh(key+"@"+ln, sortOf(typ))
+			}
 		}
 	}
 	{
@@ -1673,8 +1681,29 @@ func (v *FnVC) loopBack(l *Loop, st *State, cond *Term) {
 	}
 }
 
+// ghostAssignedIn: some call in the loop body has a contract that modifies the ghost variable.
 func (v *FnVC) ghostAssignedIn(l *Loop, name string) bool {
-	return true
+	for b := range l.Body {
+		for _, in := range b.Instrs {
+			c, ok := in.(*ssa.Call)
+			if !ok {
+				continue
+			}
+			if _, isB := c.Call.Value.(*ssa.Builtin); isB {
+				continue
+			}
+			_, spec := v.g.calleeSpec(v, c.Call)
+			if spec == nil {
+				continue
+			}
+			for _, g := range spec.ModGhost {
+				if g == name {
+					return true
+				}
+			}
+		}
+	}
+	return false
 }
 
 // loopFrameCheck: a store inside a loop whose havoc assumed a loop-level frame
